@@ -31,10 +31,19 @@ import (
 	"time"
 )
 
-const (
-	verifDir = "/verif"
-	repoDir  = "/repo"
-)
+const repoDir = "/repo"
+
+// verifDir is the framework directory: the working directory when it holds a
+// MANIFEST.json (checks are run with cwd=/verif; background runs from a
+// snapshot use the snapshot), /verif otherwise.
+var verifDir = func() string {
+	if wd, err := os.Getwd(); err == nil {
+		if _, err := os.Stat(filepath.Join(wd, "MANIFEST.json")); err == nil {
+			return wd
+		}
+	}
+	return "/verif"
+}()
 
 func goEnv() []string {
 	env := os.Environ()
